@@ -36,10 +36,10 @@ def gen_graph(rng, big=False):
     return ";".join(items), nodes, edges
 
 
-def gen_programs(rng, nodes, edges, nrules=4, big=False):
+def gen_programs(rng, nodes, edges, nrules=4, big=False, local=0.5):
     k = max(nodes[1])
     def tgt():
-        return "s" if rng.random() < 0.5 else str(rng.randint(1, k))
+        return "s" if rng.random() < local else str(rng.randint(1, k))
     progs = []
     for r in range(nrules):
         ins = []
@@ -93,12 +93,12 @@ def gen_enq(rng, nodes, nrules=4, big=False):
     return reqs
 
 
-def gen_case(rng, big=False, perms=4):
+def gen_case(rng, big=False, perms=4, local=0.5, extra=""):
     g, nodes, edges = gen_graph(rng, big)
-    r = gen_programs(rng, nodes, edges, big=big)
+    r = gen_programs(rng, nodes, edges, big=big, local=local)
     enq = gen_enq(rng, nodes, big=big)
     e = ";".join(f"{a}.{b}.{c}" for a, b, c in enq) or "-"
-    return f"g={g} r={r} enq={e} perms={perms} seed={rng.getrandbits(30)}"
+    return f"g={g} r={r} enq={e} perms={perms} seed={rng.getrandbits(30)}" + ((" " + extra) if extra else "")
 
 
 # ---------------------------------------------------------------------------- model terms
